@@ -265,6 +265,67 @@ func judgeNames(r *mon.Rec, idx int) {
 	}
 }
 
+// judgeReparse: ONE Labels value is decoded into several times with the method form (a long-lived option object that is
+// refilled from every received packet): bytes X, an edit by the caller, the same bytes X again, other bytes Y.  After
+// each successful decode the value holds the names of the bytes just decoded and re-encodes to them.
+func judgeReparse(r *mon.Rec, idx int) {
+	rng := r.Rand("reparse", idx)
+	x := reflabel.Encode(genNames(rng))
+	y := reflabel.Encode(genNames(rng))
+	if rng.IntN(3) == 0 {
+		x = reflabel.ManyPointers(rng)
+	}
+	rx, ry := reflabel.Decode(x), reflabel.Decode(y)
+	if rx.V != reflabel.Names || ry.V != reflabel.Names {
+		return
+	}
+	r.Eval(1)
+	rp := replay{Kind: "reparse", Idx: idx}
+	pan, val, st := mon.Guard(func() {
+		l := &rfc1035label.Labels{}
+		step := func(tag string, b []byte, want []string) bool {
+			if err := l.FromBytes(append([]byte{}, b...)); err != nil {
+				r.Violate("C19:reparse-error", fmt.Sprintf("%s: (*Labels).FromBytes failed on bytes the reference reads as %d names: %v", tag, len(want), err), rp)
+				return false
+			}
+			if !eqNames(l.Labels, want) {
+				r.Violate("C19:reparse-stale", fmt.Sprintf("%s: after decoding into an existing value it holds %.100q, the bytes say %.100q", tag, l.Labels, want), rp)
+				return false
+			}
+			if !bytes.Equal(l.ToBytes(), b) {
+				r.Violate("C19:reparse-stale", fmt.Sprintf("%s: the value does not re-encode to the bytes just decoded", tag), rp)
+				return false
+			}
+			return true
+		}
+		if !step("first decode of X", x, rx.Names) {
+			return
+		}
+		// the caller edits / clears the names, then the same bytes arrive again
+		switch rng.IntN(3) {
+		case 0:
+			l.Labels = nil
+		case 1:
+			if len(l.Labels) > 0 {
+				l.Labels[rng.IntN(len(l.Labels))] = "edited.example"
+			}
+		default:
+			l.Labels = append(l.Labels, "appended.example")
+		}
+		if !step("X again after the caller changed the names", x, rx.Names) {
+			return
+		}
+		if !step("then Y", y, ry.Names) {
+			return
+		}
+		step("then X once more", x, rx.Names)
+	})
+	if pan {
+		r.Violate("C19:panic:"+mon.LibFrame(st), fmt.Sprint(val), rp)
+	}
+	r.Count("reparse_sequences", 1)
+}
+
 func trunc(b []byte) []byte {
 	if len(b) > 48 {
 		return b[:48]
@@ -452,6 +513,8 @@ func TestCheck(t *testing.T) {
 			judgeBytes(r, "replay", mon.UnHex(rp.Wire))
 		case "names":
 			judgeNames(r, rp.Idx)
+		case "reparse":
+			judgeReparse(r, rp.Idx)
 		default:
 			judgeEdit(r, rp.Idx)
 		}
@@ -512,6 +575,8 @@ func TestCheck(t *testing.T) {
 		judgeBytes(r, "web", reflabel.Web(rng))
 		judgeBytes(r, "boundary", reflabel.Boundary(rng))
 		judgeBytes(r, "far-pointer", reflabel.FarPointer(rng))
+		judgeBytes(r, "many-pointers", reflabel.ManyPointers(rng))
+		judgeReparse(r, i)
 	}
 	// (3b) committed corpus: replay + mutants
 	corp := mon.Corpus("label")
